@@ -283,6 +283,19 @@ fn run(op: &str, a: &[String]) -> String {
             let (_, ct) = kem::enc(pk, seed32(&a[1]));
             show_dec(kem::dec(sk, apply_tamper(ct, &a[2..])))
         }
+        "tamperntt" => {
+            // add coset_ntt(e) for a short polynomial e to the message-carrying component bga_m (elements 256..319):
+            // the decrypted message moves by e only, so a decapsulation that forgot to compare bga_m would accept
+            let (sk, pk) = kem::keygen(seed32(&a[0]));
+            let (_, ct) = kem::enc(pk, seed32(&a[1]));
+            let mut e = arr64(&a[2..]);
+            coset_ntt_noswap_64(&mut e);
+            let mut arr: [BFieldElement; 320] = ct.into();
+            for i in 0..64 {
+                arr[256 + i] += e[i];
+            }
+            show_dec(kem::dec(sk, Ciphertext::from(arr)))
+        }
         "decother" => {
             let (_, pk1) = kem::keygen(seed32(&a[0]));
             let (sk2, _) = kem::keygen(seed32(&a[1]));
